@@ -1017,7 +1017,7 @@ func main() {
 				{"wallet", "", "feesForProofs"}, {"wallet", "", "feesForCount"},
 				{"mint", "Mint", "TransactionFees"},
 				{"wallet", "", "inputsWithoutDLEQ"},
-				{"nut11", "", "IsSigAll"}, {"nut11", "", "DuplicateSignatures"}, {"nut11", "", "ParseP2PKTags"}, {"nut11", "", "HasValidSignatures"}, {"nut11", "", "VerifyP2PKLockedProof"}, {"nut11", "", "PublicKeys"}, {"nut14", "", "VerifyHTLCProof"},
+				{"nut11", "", "IsSigAll"}, {"nut11", "", "DuplicateSignatures"}, {"nut11", "", "ParseP2PKTags"}, {"nut11", "", "HasValidSignatures"}, {"nut11", "", "VerifyP2PKLockedProof"}, {"nut11", "", "PublicKeys"}, {"nut11", "", "ProofsSigAll"}, {"nut14", "", "VerifyHTLCProof"},
 				{"nut10", "SecretKind", "String"},
 				{"nut04", "State", "String"}, {"nut04", "", "StringToState"},
 				{"nut05", "State", "String"}, {"nut05", "", "StringToState"},
